@@ -13,8 +13,9 @@ LEVEL_TEXT = ("Every assemble() call over exhaustively enumerated overhang graph
               "online: the outcome class, the overhang/modules named by the error, the product, the modules named by the warning. "
               "Exhaustive for the stated bound only; beyond it random graphs. A walk guard aborts non-consuming walks on logical steps.")
 LEVEL_NOTE = "trusts the 40-line admissible-outcome model in mon/asmmon.py and the string model; any of several simultaneously applicable errors is accepted"
-RULE = ("exhaustive: alphabet {AAAC, GTTT(=rc AAAC), ACGT(palindrome), CCTA, TTGA}, all 25 vectors (5 with equal overhangs) x every "
-        "multiset of <=2 (quick; thorough <=3) modules over the 25 (start,end) types x every distinct permutation; quick adds 3000 "
+RULE = ("exhaustive: alphabet {AAAC, GTTT(=rc AAAC), ACGT(palindrome), CCTA, TTGA, ATTA, TAAT(=rc ATTA, both reading the same backwards)}, "
+        "all 49 vectors (7 with equal overhangs) x every "
+        "multiset of <=2 (quick; thorough <=3) modules over the 49 (start,end) types x every distinct permutation; quick adds 3000 "
         "sampled triples with all permutations; random graphs of 4..7 modules over pools of 6..8 overhangs for BsaI (k=4), BspQI (k=3) "
         "and a k=5 enzyme. Non-trivial = the graph has at least one module whose start or end overhang equals, complements or "
         "coincides with another overhang of the call (i.e. not a set of unrelated overhangs); distinct = distinct (vector, ordered module types).")
@@ -26,7 +27,7 @@ FLOORS = {"c03_judged": 5000, "c03_unused_checked": 100}
 MUST_REACH = ["AssemblyManager._generate_modules_map", "AssemblyManager._generate_assembly"]
 BUDGET_S = {"quick": 900, "thorough": 7200}
 EXHAUSTIVE = {"quick": False, "thorough": False}
-ALPHA = ["AAAC", "GTTT", "ACGT", "CCTA", "TTGA"]
+ALPHA = ["AAAC", "GTTT", "ACGT", "CCTA", "TTGA", "ATTA", "TAAT"]
 
 
 def cases(tier, seed):
@@ -48,7 +49,7 @@ def cases(tier, seed):
         for j in range(0, 3000, 50):
             sets = [[list(rng.choice(types)) for _ in range(3)] for _ in range(50)]
             out.append({"kind": "graphs", "enzyme": "BsaI", "v": list(rng.choice(types)), "sets": sets})
-    nrand = 600 if tier == "quick" else 30000
+    nrand = 600 if tier == "quick" else 200000
     k5 = [n for n in gen.enzyme_names() if refmodel.geometry(gen.enzyme(n))[2] == 5][:1]
     enzs = ["BsaI", "BspQI"] + k5
     for j in range(0, nrand, 20):
@@ -128,10 +129,13 @@ def execute(mat, ctx):
             o = gen.rand_dna(rng, k)
             if geom[0] in o or rc(geom[0]) in o:
                 continue
+            if rng.random() < 0.15:
+                o = (o[: (k + 1) // 2] + o[: k // 2][::-1])      # reads the same backwards
             if o not in pool:
                 pool.append(o)
-                if rng.random() < 0.3 and rc(o) not in pool:
-                    pool.append(rc(o))
+                for rel in (rc(o), o[::-1], rc(o)[::-1]):           # reverse complement, plain reversal, plain complement
+                    if rng.random() < 0.25 and rel not in pool and geom[0] not in rel and rc(geom[0]) not in rel:
+                        pool.append(rel)
         nm = rng.randint(4, 7)
         if rng.random() < 0.5:
             # mostly-chained graph: a path with a few perturbations (forks, dead ends, cycles)
